@@ -171,6 +171,10 @@ def check_proofs(prop_id, extra_targets=(), leanchecker=False):
     """Proof obligations of a property: build, forbidden-token scan, axiom audit (and leanchecker when asked)."""
     st = ProofStatus()
     t0 = time.time()
+    if os.environ.get("VERIF_SECONDARY_PASS") == "1":
+        # the optimised-mode pass of `./check`: correspondence and oracle only, the proof obligations are those of the
+        # primary pass of the same invocation
+        return st
     ok, out = lake_build([f"WindVerif.Props.{prop_id}", "driver"] + list(extra_targets))
     for _attempt in range(2):
         if ok:
@@ -378,6 +382,18 @@ def source_digest(files):
     return h.hexdigest()[:16]
 
 
+OPT_PASS_RESULT = None  # set by ./check: what the `python -O` pass of this invocation did
+
+
+def budget_div(n):
+    """the secondary (optimised-mode) pass runs a fraction of the budget"""
+    try:
+        d = int(os.environ.get("VERIF_BUDGET_DIV", "1"))
+    except ValueError:
+        d = 1
+    return max(1, n // max(1, d))
+
+
 def _ast_digest(path):
     """digest of the *code* of a Python source file: comments, blank lines and docstrings do not count"""
     import ast
@@ -413,6 +429,8 @@ def budget_scale(anchors, tier, report=None):
     changed = anchors_changed(anchors)
     if report is not None:
         report.extra["anchored_sources_changed"] = changed
+        if OPT_PASS_RESULT is not None:
+            report.extra["optimised_mode_pass"] = OPT_PASS_RESULT
     if not changed:
         return 1
     try:
